@@ -17,9 +17,9 @@ BASE_MIX = [
     ("planner", {}, 0.20),
     ("clockwork", {}, 0.10),
     # the batching mode of the planners: small bursts of model-serving requests (see worldgen: small_burst)
-    ("clockwork", {"small_burst": True, "flags": dict(BATCHING_FLAGS, scheduler="ILP")}, 0.04),
-    ("clockwork", {"small_burst": True, "flags": dict(BATCHING_FLAGS, scheduler="TetriSched_CPLEX", scheduler_time_discretization=1,
-                                                      scheduler_plan_ahead=12)}, 0.04),
+    ("clockwork", {"small_burst": True, "loop_timeout": 150, "flags": dict(BATCHING_FLAGS, scheduler="ILP")}, 0.04),
+    ("clockwork", {"small_burst": True, "loop_timeout": 150,
+                   "flags": dict(BATCHING_FLAGS, scheduler="TetriSched_CPLEX", scheduler_time_discretization=1, scheduler_plan_ahead=12)}, 0.04),
 ]
 
 N_WORLDS = {"quick": 320, "thorough": 7000}
